@@ -1,7 +1,7 @@
 (* C12 — result accessors expose exactly the produced shards; drop starts a new round. *)
 From Coq Require Import NArith Bool List Lia FMapPositive.
 From RS.Gen Require Import Prelude GenConsts.
-From RS.Model Require Import Field Sched Codec Machine.
+From RS.Model Require Import Field Sched Codec Layout Machine.
 From RS.Proofs Require Import ShardLen DecShape.
 Import ListNotations.
 Local Open Scope N_scope.
@@ -148,3 +148,29 @@ Example C12_example :
   | _ => False
   end.
 Proof. vm_compute. repeat split. Qed.
+
+(* ---- the accessor decisions are the ones of the current Rust text: rs2v regenerates the decision trees of
+   EncoderWork::recovery and DecoderWork::restored_original (Gen/GenGuards.v: None, or the first shard_bytes
+   bytes of the shard at a work position) on every run; what the model's encode / decode report for the
+   probes and in the iterator is exactly what those trees select ---- *)
+From RS.Gen Require Import GenGuards.
+From RS.Proofs Require Import GuardFacts.
+Theorem C12_recovery_regenerated : forall junk ep x probes, ew_recv (e_work x) = ew_K (e_work x) ->
+  snd (enc_encode junk ep x probes) =
+  REnc (encode_shards junk ep x)
+       (map (fun i => (i, enc_recovery_of (encode_shards junk ep x) (ew_R (e_work x)) (ew_sb (e_work x)) i)) probes).
+Proof. exact enc_recovery_guard. Qed.
+Print Assumptions C12_recovery_regenerated.
+Theorem C12_restored_regenerated : forall junk ep x probes,
+  (dw_orecv (d_work x) + dw_rrecv (d_work x) <? dw_K (d_work x)) = false -> (dw_orecv (d_work x) =? dw_K (d_work x)) = false ->
+  let w := d_work x in
+  let r := dec_restored_of (decode_work junk ep x) (dw_obase w) (dw_K w) (dw_sb w) (pmem (dw_received w)) in
+  snd (dec_decode junk ep x probes) =
+  RDec (flat_map (fun i => match r i with Some b => [(i, b)] | None => [] end) (range 0 (dw_K w)))
+       (map (fun i => (i, r i)) probes).
+Proof. exact dec_restored_guard. Qed.
+Print Assumptions C12_restored_regenerated.
+Check (eq_refl : enc_recovery_of = fun rec R sb i =>
+  match gen_enc_recovery R sb i with GSome pos _ => nth_error rec (N.to_nat pos) | _ => None end).
+Check (eq_refl : dec_restored_of = fun out obase K sb recv i =>
+  match gen_dec_restored obase K sb i recv with GSome pos _ => option_map bytes_of_syms (nth_error out (N.to_nat pos)) | _ => None end).
